@@ -606,4 +606,32 @@ example : absSign (1 : ZMod 13) 13 toyH 4 7 2 = (7, 8) := by decide
 example : absVerifyD (1 : ZMod 13) 13 toyH 4 (7, 8) 2 := by unfold absVerifyD; decide
 example : ¬ absVerifyD (1 : ZMod 13) 13 toyH 4 (7, 9) 2 := by unfold absVerifyD; decide
 
+/-! ## §5 generated keys (`StrandSignatureSk::new`) -/
+
+/-- a generated key consumes exactly 32 bytes of randomness, is those bytes, and is accepted by
+    both front-ends' key decoders unchanged (so everything proved about deserialised keys applies) -/
+theorem edGenerate_spec {tape key rest : Bytes} (h : edGenerate tape = some (key, rest)) :
+    key = tape.take 32 ∧ rest = tape.drop 32 ∧ key.length = 32 ∧ key ++ rest = tape ∧
+      desSigSkZ key = some key ∧ desSigSkD key = some key := by
+  unfold edGenerate at h
+  split at h
+  · rename_i hl
+    simp only [Option.some.injEq, Prod.mk.injEq] at h
+    obtain ⟨rfl, rfl⟩ := h
+    have hlen : (tape.take 32).length = 32 := by simp [List.length_take]; omega
+    refine ⟨rfl, rfl, hlen, List.take_append_drop 32 tape, ?_, ?_⟩ <;> simp [desSigSkD, desSigSkZ, hlen]
+  · simp at h
+
+theorem edGenerate_total {tape : Bytes} (h : 32 ≤ tape.length) : (edGenerate tape).isSome := by
+  simp [edGenerate, h]
+
+/-- the key is a bijective image of the 32 random bytes: different randomness, different key
+    (no entropy is lost between the RNG and the seed) -/
+theorem edGenerate_injective {t₁ t₂ k r₁ r₂ : Bytes} (h₁ : edGenerate t₁ = some (k, r₁))
+    (h₂ : edGenerate t₂ = some (k, r₂)) : t₁.take 32 = t₂.take 32 := by
+  rw [← (edGenerate_spec h₁).1, ← (edGenerate_spec h₂).1]
+
+example : edGenerate (List.replicate 40 7) = some (List.replicate 32 7, List.replicate 8 7) := by decide
+example : edGenerate (List.replicate 31 7) = none := by decide
+
 end Strand.C20
